@@ -357,6 +357,13 @@ String_Unmarshal(char **target, BYTE **buffer, INT32 *size)
             memcpy(*target, *buffer, len);
             *buffer += len;
             *size -= len;
+            /* String_Marshal() wrote the terminating NUL byte; a string
+             * without it must not be handed to string functions */
+            if ((*target)[len - 1] != '\0') {
+                free(*target);
+                *target = NULL;
+                rc = TPM_RC_BAD_PARAMETER;
+            }
         }
     }
 
